@@ -1,6 +1,9 @@
 """Reference model of a file-configured device (property C19) - deliberately naive, shares no code with annet.
 
-A generator is a row of a table: (path, prio, output, reload, is_safe). For one device:
+A generator is a row of a table: (path, prio, output, reload, is_safe[, how the prio is declared]); prio is the
+DECLARED priority - any int, 0 and negative ones included; a generator that declares none has the documented default
+100 (the table then says 100). How it is declared (class attribute, in __init__, omitted) is of no concern here.
+For one device:
 
   planned(gens, soft)      the content planned for a path is the output of the generator with the greatest prio
                            among those that name the path (prios are distinct); the listing order plays no part.
@@ -37,7 +40,7 @@ def winner(gens, path):
 
 
 def planned(gens, soft):
-    """gens: iterable of (path, prio, output, reload, is_safe) -> (all_files, safe_files), path -> (text, reload)"""
+    """gens: iterable of (path, prio, output, reload, is_safe, ...) -> (all_files, safe_files), path -> (text, reload)"""
     gens = list(gens)
     full, safe = {}, {}
     for path in sorted({g[0] for g in gens}):
